@@ -1,0 +1,288 @@
+"""Verification tracing hooks (inactive unless SCRIPTPLAN_VERIF=1).
+
+When the environment variable SCRIPTPLAN_VERIF is "1" at import time of the package,
+``install()`` wraps a handful of scheduler methods with *boundary wrappers* that record one
+event per state change, after the change and before the method returns.  The engine itself
+is not modified; with the guard off this module is never imported.
+
+Events are plain dicts appended to ``EVENTS`` (and, if SCRIPTPLAN_VERIF_OUT names a file,
+written there as one JSON object per line).  Every event carries the scenario index ``sc``
+and a per-process sequence number ``seq``.  Dates are logged as seconds from project start.
+"""
+
+import json
+import os
+
+ON = os.environ.get("SCRIPTPLAN_VERIF") == "1"
+EVENTS = []
+_SEQ = [0]
+_OUT = [None]
+_INSTALLED = [False]
+
+
+def emit(ev, **fields):
+    _SEQ[0] += 1
+    fields["ev"] = ev
+    fields["seq"] = _SEQ[0]
+    EVENTS.append(fields)
+    path = os.environ.get("SCRIPTPLAN_VERIF_OUT")
+    if path:
+        if _OUT[0] is None:
+            _OUT[0] = open(path, "a")
+        _OUT[0].write(json.dumps(fields) + "\n")
+        _OUT[0].flush()
+
+
+def drain():
+    out = list(EVENTS)
+    del EVENTS[:]
+    return out
+
+
+def _secs(project, dt):
+    if dt is None:
+        return None
+    try:
+        return (dt - project["start"]).total_seconds()
+    except Exception:
+        return None
+
+
+def install():
+    if _INSTALLED[0]:
+        return
+    _INSTALLED[0] = True
+    from scriptplan.core import project as PJ
+    from scriptplan.core import resource_scenario as RS
+    from scriptplan.core import task_scenario as TS
+
+    depth = {"book": 0}
+
+    orig_book = RS.ResourceScenario.book
+
+    def book(self, sb_idx, task, force=False):
+        n0 = len(self.slotTaskUsage.get(sb_idx, []))
+        u0 = self.slotSecondsUsed.get(sb_idx, 0.0)
+        depth["book"] += 1
+        try:
+            r = orig_book(self, sb_idx, task, force)
+        finally:
+            depth["book"] -= 1
+        lst = self.slotTaskUsage.get(sb_idx, [])
+        if len(lst) != n0:
+            emit(
+                "Book",
+                sc=self.scenarioIdx,
+                task=task.fullId,
+                res=self.property.fullId,
+                slot=sb_idx,
+                secs=lst[-1][1],
+                used0=u0,
+                used=self.slotSecondsUsed.get(sb_idx),
+                gained=r,
+                force=bool(force),
+            )
+        return r
+
+    RS.ResourceScenario.book = book
+
+    orig_bookResource = TS.TaskScenario.bookResource
+
+    def bookResource(self, resource):
+        rs = resource.data[self.scenarioIdx] if resource.data else None
+        slot = self.currentSlotIdx
+        u0 = rs.slotSecondsUsed.get(slot) if rs is not None else None
+        n0 = len(EVENTS)
+        r = orig_bookResource(self, resource)
+        if rs is not None:
+            u1 = rs.slotSecondsUsed.get(slot)
+            booked = any(e.get("ev") == "Book" for e in EVENTS[n0:])
+            if not booked and u1 != u0:
+                emit(
+                    "OffsetMark",
+                    sc=self.scenarioIdx,
+                    task=self.property.fullId,
+                    res=resource.fullId,
+                    slot=slot,
+                    used=u1,
+                )
+        return r
+
+    TS.TaskScenario.bookResource = bookResource
+
+    orig_release = TS.TaskScenario._calculatePreciseEndTimeAndRelease
+
+    def release(self, required_effort, effort_before_slot, forward):
+        out = orig_release(self, required_effort, effort_before_slot, forward)
+        res = getattr(self, "_lastBookedResource", None)
+        rs = res.data[self.scenarioIdx] if (res is not None and res.data) else None
+        kept = None
+        if rs is not None:
+            for t, s in rs.slotTaskUsage.get(self.currentSlotIdx, []):
+                if t == self.property:
+                    kept = s
+        emit(
+            "Finish",
+            sc=self.scenarioIdx,
+            task=self.property.fullId,
+            res=res.fullId if res is not None else None,
+            slot=self.currentSlotIdx,
+            kept=kept,
+            used=rs.slotSecondsUsed.get(self.currentSlotIdx) if rs is not None else None,
+            date=_secs(self.project, out[0]),
+            done=self.doneEffort,
+        )
+        return out
+
+    TS.TaskScenario._calculatePreciseEndTimeAndRelease = release
+
+    orig_scheduleSlot = TS.TaskScenario.scheduleSlot
+
+    def scheduleSlot(self):
+        if getattr(self, "_verif_begin_pending", False):
+            self._verif_begin_pending = False
+            emit(
+                "Begin",
+                sc=self.scenarioIdx,
+                task=self.property.fullId,
+                cursor=self.currentSlotIdx,
+                offset=getattr(self, "slotStartOffset", 0.0),
+            )
+        return orig_scheduleSlot(self)
+
+    TS.TaskScenario.scheduleSlot = scheduleSlot
+
+    orig_schedule = TS.TaskScenario.schedule
+
+    def schedule(self):
+        p = self.property
+        emit("Pick", sc=self.scenarioIdx, task=p.fullId, fwd=bool(p.get("forward", self.scenarioIdx)))
+        self._verif_begin_pending = True
+        ok = None
+        try:
+            ok = orig_schedule(self)
+        finally:
+            self._verif_begin_pending = False
+            sel = getattr(self, "_selectedResources", None)
+            emit(
+                "Done",
+                sc=self.scenarioIdx,
+                task=p.fullId,
+                ok=bool(ok),
+                crashed=ok is None,
+                start=_secs(self.project, p.get("start", self.scenarioIdx)),
+                end=_secs(self.project, p.get("end", self.scenarioIdx)),
+                runaway=bool(self.isRunAway),
+                selected=[r.fullId for r in sel] if sel else [],
+            )
+        return ok
+
+    TS.TaskScenario.schedule = schedule
+
+    orig_bookResources = TS.TaskScenario.bookResources
+
+    def bookResources(self):
+        d0 = self.doneEffort
+        orig_bookResources(self)
+        if self.doneEffort != d0:
+            emit(
+                "Credit",
+                sc=self.scenarioIdx,
+                task=self.property.fullId,
+                slot=self.currentSlotIdx,
+                done=self.doneEffort,
+                start=_secs(self.project, self.property.get("start", self.scenarioIdx)),
+            )
+
+    TS.TaskScenario.bookResources = bookResources
+
+    orig_update = PJ.Project._updateContainerTaskStatus
+
+    def update(self, scIdx):
+        before = {t.fullId: bool(t.get("scheduled", scIdx)) for t in self.tasks if not t.leaf()}
+        orig_update(self, scIdx)
+        for t in self.tasks:
+            if not t.leaf() and t.get("scheduled", scIdx) and not before[t.fullId]:
+                emit(
+                    "RollUp",
+                    sc=scIdx,
+                    task=t.fullId,
+                    start=_secs(self, t.get("start", scIdx)),
+                    end=_secs(self, t.get("end", scIdx)),
+                )
+
+    PJ.Project._updateContainerTaskStatus = update
+
+    orig_scheduleContainer = TS.TaskScenario.scheduleContainer
+
+    def scheduleContainer(self):
+        s0 = bool(self.property.get("scheduled", self.scenarioIdx))
+        orig_scheduleContainer(self)
+        if not s0 and self.property.get("scheduled", self.scenarioIdx):
+            emit(
+                "RollUp",
+                sc=self.scenarioIdx,
+                task=self.property.fullId,
+                start=_secs(self.project, self.property.get("start", self.scenarioIdx)),
+                end=_secs(self.project, self.property.get("end", self.scenarioIdx)),
+                final=True,
+            )
+
+    TS.TaskScenario.scheduleContainer = scheduleContainer
+
+    orig_alap = PJ.Project._propagateALAPMode
+
+    def alap(self, scIdx):
+        for t in self.tasks:
+            if t.leaf() and t.get("scheduled", scIdx):
+                emit(
+                    "PreMilestone",
+                    sc=scIdx,
+                    task=t.fullId,
+                    start=_secs(self, t.get("start", scIdx)),
+                    end=_secs(self, t.get("end", scIdx)),
+                )
+        orig_alap(self, scIdx)
+        emit("Modes", sc=scIdx, fwd={t.fullId: bool(t.get("forward", scIdx)) for t in self.tasks if t.leaf()})
+
+    PJ.Project._propagateALAPMode = alap
+
+    orig_prepare = PJ.Project.prepareScenario
+
+    def prepare(self, scIdx):
+        orig_prepare(self, scIdx)
+        emit(
+            "Prepare",
+            sc=scIdx,
+            size=self.scoreboardSize(),
+            G=self.attributes.get("scheduleGranularity"),
+            end=_secs(self, self.attributes.get("end")),
+        )
+
+    PJ.Project.prepareScenario = prepare
+
+    orig_ss = PJ.Project.scheduleScenario
+
+    def scheduleScenario(self, scIdx):
+        r = None
+        try:
+            r = orig_ss(self, scIdx)
+        finally:
+            emit(
+                "LoopEnd",
+                sc=scIdx,
+                ok=bool(r),
+                crashed=r is None,
+                unsched=[t.fullId for t in self.tasks if t.leaf() and not t.get("scheduled", scIdx)],
+            )
+        return r
+
+    PJ.Project.scheduleScenario = scheduleScenario
+
+    orig_warning = PJ.Project.warning
+
+    def warning(self, id, *a, **kw):
+        emit("Warn", sc=-1, id=str(id))
+        return orig_warning(self, id, *a, **kw)
+
+    PJ.Project.warning = warning
